@@ -32,7 +32,8 @@ def check_config(cfg, w, rep, strict_single=False):
         lf = prog.fns[p]
         body = lf.body
         key = fn_key(lf)
-        gates = try_gates(prog, body, lambda o: publication_origin(w, o) and o.path in AWAIT_PATHS)
+        gates = try_gates(prog, body, lambda o: publication_origin(w, o) and o.path in AWAIT_PATHS) + \
+            match_gates(prog, body, lambda o: publication_origin(w, o) and o.path in AWAIT_PATHS, "Ok")
         gates += match_gates(prog, body, lambda o: publication_origin(w, o) and o.path in AWAIT_PATHS, "Ok")
         ins = [(b, blk, t) for b, blk, t in insert_calls(w, lf) if b is body]
         if not gates:
